@@ -22,8 +22,8 @@ ASSUMPTIONS = [
     'true per-step displacements stay below 0.4999 cell per coordinate (a step of exactly half a cell has no defined minimum image)',
     'equalities between floating-point results use 1e-9 (relative to the data); range [0,1) is checked strictly',
 ]
-N_CASES = {'quick': 640, 'thorough': 30000}
-BUDGET_S = {'quick': 200, 'thorough': 2400}
+N_CASES = {'quick': 640, 'thorough': 300000}
+BUDGET_S = {'quick': 200, 'thorough': 3600}
 
 _mon = Monitor()
 _state = {'ctx': None}
